@@ -82,6 +82,15 @@ fn multi(rep: &mut Report, seed: u64, case: u64) {
             applied.push(*w);
         }
     }
+    // order-sensitive triple writes inside the same transaction: insert-then-delete of one triple
+    // (net effect: absent) and delete-then-insert of another (net effect: present)
+    let triple_pairs = rng.chance(0.5);
+    if triple_pairs {
+        let _ = s.execute_sparql("INSERT DATA { <http://t1> <http://p> <http://o> }");
+        let _ = s.execute_sparql("DELETE DATA { <http://t1> <http://p> <http://o> }");
+        let _ = s.execute_sparql("DELETE DATA { <http://s1> <http://q> <http://o9> }");
+        let _ = s.execute_sparql("INSERT DATA { <http://s1> <http://q> <http://o9> }");
+    }
     let committed = match ending {
         Ending::Commit => s.commit().is_ok(),
         Ending::Rollback => {
@@ -135,6 +144,21 @@ fn multi(rep: &mut Report, seed: u64, case: u64) {
             &format!("multi:{}|{:?}|{}={}", w.name(), ending, regime.name(), outcome),
             json!({"write": w.name(), "ending": format!("{ending:?}"), "regime": regime.name(), "transaction": applied.iter().map(|w| w.name()).collect::<Vec<_>>(), "reader_in_tx": in_tx}),
         );
+    }
+    if triple_pairs {
+        let rows = |q: &str| reader.execute_sparql(q).map(|r| r.row_count()).unwrap_or(usize::MAX);
+        let t1 = rows("SELECT ?o WHERE { <http://t1> <http://p> ?o }");
+        let t2 = rows("SELECT ?o WHERE { <http://s1> <http://q> ?o }");
+        rep.count("multi.triple_order_pairs", 1);
+        // insert-then-delete: absent whatever the ending
+        if t1 != 0 {
+            rep.deviation(&format!("multi:sparql_insert_then_delete|{ending:?}=present"), json!({"regime": regime.name(), "rows": t1}));
+        }
+        // delete-then-insert: present after commit, absent after an abort
+        let want = usize::from(committed);
+        if t2 != want {
+            rep.deviation(&format!("multi:sparql_delete_then_insert|{ending:?}={}", if t2 == 0 { "absent" } else { "present" }), json!({"regime": regime.name(), "rows": t2}));
+        }
     }
     // atomicity as such: a transaction must not end up partially visible
     let n_true = visible_now.iter().filter(|v| v.1 == Some(true)).count();
